@@ -349,6 +349,7 @@ func (w *World) absData(m M, h *ref.Header, d *ref.Data, from, to string) {
 	m["text"] = -1
 	m["rs"] = false
 	m["tlvs"] = []int{}
+	m["smp"] = M{"k": 0, "sec": []interface{}{}, "ok": "ok", "run": 0}
 	m["trail"] = len(d.Trailing)
 	var keys *ref.SessionKeys
 	w.Reg.candidatePairs(from, to, func(a, b *Secret) bool {
@@ -375,6 +376,28 @@ func (w *World) absData(m M, h *ref.Header, d *ref.Data, from, to string) {
 			tl = append(tl, -1)
 		}
 		m["tlvs"] = tl
+		// SMP payload: type of the (last non-abort) SMP TLV, the sender's bound secret term
+		k := 0
+		for _, t := range tlvs {
+			if t.Type >= 2 && t.Type <= 7 && (t.Type != 6 || k == 0) {
+				k = int(t.Type)
+			}
+		}
+		if k != 0 {
+			sec := []interface{}{}
+			if sp := w.P[from]; sp != nil && (k == 3 || k == 4 || k == 5) && sp.SMPTerm != nil {
+				sec = sp.SMPTerm
+			}
+			ok := "ok"
+			if w.SMPClass != "" {
+				ok = w.SMPClass
+			}
+			run := 0
+			if sp := w.P[from]; sp != nil && k != 6 {
+				run = sp.SMPRun
+			}
+			m["smp"] = M{"k": k, "sec": sec, "ok": ok, "run": run}
+		}
 		w.lastPlain = pt
 		w.lastTLVs = tlvs
 		w.lastKeys = keys
